@@ -4,6 +4,7 @@ import (
 	"bytes"
 	"encoding/base64"
 	"fmt"
+	"os"
 	"reflect"
 	"strconv"
 
@@ -256,6 +257,9 @@ func applyParserStep(p *syntax.Parser, h *HistStep, st *Stats) {
 		}
 	}()
 	rd := NewSimReader(h.input(), h.Plan)
+	if debugHist {
+		fmt.Fprintf(os.Stderr, "HIST op=%s plan=%s input=%s\n", h.Op, h.Plan, strconv.Quote(string(h.input())))
+	}
 	dirty := func(kind string) {
 		if st != nil {
 			st.Faults.Add(kind, 1)
